@@ -132,6 +132,11 @@ def main():
             st = sites[:]; ck.rng.shuffle(st)
             src = "package p\n\nfunc h() {\n\t" + "\n\t".join(st) + "\n}\n"
             pairs.append(("p.patch", ptxt.encode(), "a.go", src.encode())); names.append("both-kinds"); metas.append({"family": "both-kinds"})
+    # ---- an identifier metavariable where the identifier may be absent: the label of break / continue
+    LABELS = "package p\n\nfunc h() {\nouter:\n\tfor {\n\t\tfor {\n\t\t\tbreak outer\n\t\t}\n\t\tbreak\n\t}\nagain:\n\tfor {\n\t\tcontinue again\n\t}\n\tfor {\n\t\tcontinue\n\t}\n}\n"
+    for ptxt in ("@@\nvar L identifier\n@@\n-break L\n+continue L\n", "@@\nvar L identifier\n@@\n-continue L\n+goto L\n",
+                 "@@\nvar L identifier\n@@\n-break L\n+return\n", "@@\n@@\n-break\n+return\n"):
+        pairs.append(("p.patch", ptxt.encode(), "a.go", LABELS.encode())); names.append("absent-ident"); metas.append({"family": "absent-identifier", "must_parse": True})
     # ---- deep code: repeated metavariables whose fillers differ only far down (20-40 levels), deep literal patterns
     def nest(d, leaf, w="w"):
         return (w + "(") * d + leaf + ")" * d
